@@ -126,6 +126,8 @@ def run_obligation(ob, tier, seed):
         res.inconclusive(f'unhandled path end {e.kind}: {e.info}')
     except Exception as e:  # machinery bug: never a pass, never a violation
         res.inconclusive('exception: ' + repr(e) + ' ' + traceback.format_exc()[-1500:])
+    if res.status == 'pass' and res.nontrivial == 0:
+        res.inconclusive('vacuous: no path reached a decided assertion')
     res.wall_s = time.time() - t0
     return res.to_json()
 
